@@ -165,6 +165,10 @@ def conclude(prop, tier, seed, mod, cresults, obligations, wall, extra_info=None
             continue
         confirmed, script, output = replay_obligation(ob)
         in_ledger = ledger is not None and ('%s|%s' % (ob.fn, ob.clause)) in ledger.get('discharged', [])
+        if not in_ledger and ledger is not None and (ob.clause or '').startswith('no-raise') and any(ent.startswith(ob.fn + '|') for ent in ledger.get('discharged', [])):
+            # an exception no contract clause allows, on a contract that was fully discharged on the pinned tree: there every path of this
+            # contract returned or raised justifiably, so the new escaping exception is a regression of a discharged contract
+            in_ledger = True
         only_bounded = 'bounded instance' in (ob.backend or '')
         if confirmed:
             path = write_replay_file(prop, ob, True, script, output)
@@ -310,4 +314,5 @@ def write_evidence(prop, tier, seed, mod, cresults, obligations, wall, rc, viola
     ev = dict(property_id=prop, tier=tier, seed=seed, level=level, coverage=cov,
               assumptions=list(getattr(mod, 'ASSUMPTIONS', [])), wall_s=round(wall, 2), violations=len(violations))
     ev['coverage']['not_covered'] = list(getattr(mod, 'NOT_COVERED', []))
-    json.dump(ev, open(os.path.join(EVIDENCE, prop + '.json'), 'w'), indent=1, default=str)
+    # a partial run (--only) must not overwrite the evidence of the full check
+    json.dump(ev, open(os.path.join(EVIDENCE, prop + ('.partial.json' if PARTIAL else '.json')), 'w'), indent=1, default=str)
